@@ -7,6 +7,7 @@ require (
 	github.com/segmentio/ksuid v1.0.4
 	github.com/spf13/afero v1.9.3
 	go.uber.org/zap v1.24.0
+	gopkg.in/yaml.v2 v2.4.0
 )
 
 require (
@@ -55,7 +56,6 @@ require (
 	golang.org/x/sys v0.4.0 // indirect
 	golang.org/x/text v0.6.0 // indirect
 	google.golang.org/protobuf v1.28.1 // indirect
-	gopkg.in/yaml.v2 v2.4.0 // indirect
 )
 
 replace github.com/oneconcern/datamon => /repo
